@@ -1,0 +1,33 @@
+//go:build verif
+// +build verif
+
+// Contracts for package ipv6, read only by the verifier in /verif (build tag verif).
+// This file contains no code.
+
+package ipv6
+
+// Inbound path (C07): whatever bytes arrive, the IPv6 handlers (including neighbour discovery
+// and echo) do not panic, given an initialised endpoint.
+//@ define epOK(e) = e != nil && e.dispatcher != nil && e.linkEP != nil && e.linkAddrCache != nil
+//@ define vvOK(vv) = vv.size == vsum(vv.views) && 0 <= vv.size && vv.size <= 1 << 40
+
+//@ func icmpChecksum props C07 C06
+//@   requires len(h) >= 4
+//@   loop 1 invariant -1 <= rangeindex && rangeindex < len(vv.views)
+//@   modifies h[2], h[3]
+
+//@ func (*endpoint).HandlePacket props C07
+//@   requires epOK(e) && r != nil && vvOK(vv)
+//@   modifies everything(), modset(ARPGHOSTS)
+
+// C12 (neighbour discovery): a neighbour solicitation is answered only if the link address
+// cache says the target address (exactly bytes 8..24 of the message) is one of ours.
+//@ func (*endpoint).handleICMP props C07 C12
+//@   requires epOK(e) && r != nil && vvOK(vv)
+//@   at_call CheckLocalAddress requires len(addr) == 16 && forall(k, 0, 16, byteat(addr, k) == old(vv.views[0])[8 + k]) && protocol == ProtocolNumber
+//@   at_call WritePacket requires implies(old(vv.views[0])[0] == uint8(header.ICMPv6NeighborSolicit), ghost(lastLocalCheck) != 0 && protocol == header.ICMPv6ProtocolNumber)
+//@   modifies everything(), modset(ARPGHOSTS)
+
+//@ func (*endpoint).handleControl props C07
+//@   requires epOK(e) && vvOK(vv)
+//@   modifies everything()
